@@ -555,7 +555,8 @@ impl Check for Heap {
                 // the hook-free release binary under valgrind memcheck: sees what the shadow heap cannot
                 // (the buffers inside String / Vec) and confirms that the hooks mask nothing
                 let (_, text) = self.program_text(ctx, idx);
-                let bin = "/verif/harness/target-repo/release/nederlang";
+                let bin_s = format!("{}/harness/target-repo/release/nederlang", crate::sup::root());
+                let bin = bin_s.as_str();
                 if !std::path::Path::new(bin).exists() {
                     st.inconclusive(format!("{} not built", bin));
                     return;
